@@ -111,8 +111,8 @@ def _ref_loop(case, with_delays=False):
             if with_delays:
                 delays.append(call("tm", lambda s: _delay_value(case["delay"], s), x))
             out.append(x)
-            if len(out) > LONGEST:
-                return None
+            if len(out) > LONGEST or abs(x) > 10**12:
+                return None  # runaway loop: not generated (the strategy filters these out)
             x = call("iter", it, x)
     except _Inj as e:
         return out, delays, ["E", str(e)]
@@ -124,6 +124,8 @@ def _ref_loop(case, with_delays=False):
 
 
 def _mk_iterable(kind, names):
+    if kind == "str":
+        return "".join(names)
     items = [val(n) for n in names]
     if kind == "list":
         return items
@@ -137,8 +139,6 @@ def _mk_iterable(kind, names):
         return (x for x in items)
     if kind == "dictvalues":
         return {i: x for i, x in enumerate(items)}.values()
-    if kind == "str":
-        return "".join(names)
     raise HarnessError(kind)
 
 
@@ -395,7 +395,27 @@ _delay_spec = st.fixed_dictionaries(
 @st.composite
 def _loop_case(draw):
     f = draw(st.sampled_from(["generate", "gwrt", "gwrt"]))
-    c = {"f": f, "init": draw(st.integers(-4, 4)), "cond": draw(_cond_spec), "iter": draw(_iter_spec)}
+    init = draw(st.integers(-4, 4))
+    it = draw(_iter_spec)
+    if draw(st.integers(0, 3)) == 0:
+        cond = draw(_cond_spec)  # unrelated to the start value: mostly empty or one-element loops
+    else:
+        off = draw(st.integers(0, 10))
+        kind = draw(st.sampled_from(["lt", "gt", "abs_lt", "ne"]))
+        if kind == "lt":
+            cond = ["lt", init + off]
+        elif kind == "gt":
+            cond = ["gt", init - off]
+        elif kind == "abs_lt":
+            cond = ["abs_lt", abs(init) + off]
+        else:  # the off-th state of the loop, so the loop runs exactly until it reaches it
+            x = init
+            for _ in range(off):
+                x = _iter(it)(x)
+                if abs(x) > 10**6:
+                    break
+            cond = ["ne", x]
+    c = {"f": f, "init": init, "cond": cond, "iter": it}
     if f == "gwrt":
         c["delay"] = draw(_delay_spec)
     slots = ["cond", "iter"] + (["tm"] if f == "gwrt" else [])
@@ -426,7 +446,8 @@ def _case(draw):
     if c.get("rep") == "abs":
         c["d"] = c["t0"] + c["d"]  # absolute due tick, never before the subscription
     one_shot = c.get("iterable") in ONE_SHOT
-    c["gap"] = None if (one_shot or c.get("raise")) else draw(st.sampled_from([None, 1, 7]))
+    no_resub = one_shot or c.get("raise") or c.get("rep") == "abs"  # an absolute due time is already past for a later subscriber
+    c["gap"] = None if no_resub else draw(st.sampled_from([None, 1, 7]))
     return c
 
 
